@@ -48,6 +48,7 @@ const (
 	KF32Reflect = "C16-FLOAT32-REFLECT-VALUE"
 	KNullToAny  = "C16-STORE-NULL-INTO-INTERFACE"
 	KShadow     = "C16-STRUCT-SHADOW-PROPERTY"
+	KFieldGrow  = "C16-FIELD-SLICE-GROW-LOST"
 )
 
 func impossible(class string, known ...string) Den {
@@ -584,6 +585,19 @@ var Fixtures = []Fixture{
 	{"parr", func() interface{} { return &[3]int{4, 5, 6} }},
 	{"msi", func() interface{} { return map[string]int{"a": 1, "b": 2} }},
 	{"isl", func() interface{} { return IntSl{7, 8} }},
+	// two distinct struct types that print the same name; the second is touched first in every runtime
+	{"twb", func() interface{} {
+		v := reflect.New(TypeOf("TwinB"))
+		v.Elem().Field(1).SetString("bq")
+		v.Elem().Field(3).SetInt(22)
+		return v.Interface()
+	}},
+	{"twa", func() interface{} {
+		v := reflect.New(TypeOf("TwinA"))
+		v.Elem().Field(0).SetInt(11)
+		v.Elem().Field(1).SetString("aq")
+		return v.Interface()
+	}},
 }
 
 func fixture(name string) (reflect.Value, bool) {
